@@ -113,6 +113,8 @@ func runC11(p *Prog, r *Result) {
 	}
 	info := pkg.TypesInfo
 	r.Rule("R11a", "after recoverError() returns false every path to the function's exit passes a call that always reports an error (mustError, computed)", 14)
+	r.Rule("R11d", "the recovery limit is read only inside recoverError(): no other branch depends on RecoverErrors being enabled", 4)
+	checkRecoveryGate(p, r, "R11d")
 	r.Rule("R11b", "every LangVariant constant tested against the parser's variant contains LangBash and LangBats together or neither", 100)
 	r.Rule("R11c", "construction sites of non-POSIX nodes, fields and operators are gated by a variant test excluding LangPOSIX", 80)
 
@@ -354,6 +356,8 @@ func checkRecoverErrorBody(p *Prog, r *Result, info *types.Info, fd *ast.FuncDec
 }
 
 var c11Controls = []Control{
+	{Name: "branch-on-recovery-enabled", Rule: "R11d", WantKey: "reads recoverErrorsMax", File: "syntax/lexer.go",
+		Mutate: ctlReplaceAnywhere("\t\t\tif p.parsingDoc {\n\t\t\t\tif r == runeEOF {", "\t\t\tif p.parsingDoc || p.recoverErrorsMax > 0 {\n\t\t\t\tif r == runeEOF {")},
 	{Name: "followRsrv-drop-error", Rule: "R11a", WantKey: "followRsrv#recoverError", File: "syntax/parser.go",
 		Mutate: ctlReplace("Parser.followRsrv", "p.followErr(lpos, left, val)", "_ = left", 0)},
 	{Name: "followStmts-recover-before-empty-list", Rule: "R11a", WantKey: "followStmts#recoverError", File: "syntax/parser.go",
